@@ -160,6 +160,12 @@ def run(chk):
     except (AnalysisError, SymbolicBranch, KeyError) as e:
         chk.undecided.append(f"R1v: preprocess_arg could not be interpreted ({str(e)[:140]})")
 
+    from .. import colexprsim as _ces
+    from ..model import model_of as _mo0
+
+    if not isinstance(_ces.scenarios(chk, _mo0(chk)), AnalysisError):
+        decided_iids |= {"marker-misuse", "case-ftype", "nested-agg"}  # (decided by R1m on the interpreted functions)
+
     # ---- R1
     for iid, short, fq, exc, needles, what in INSTANCES:
         if table_decided and iid in ("table-getattr", "table-getitem"):
@@ -182,6 +188,19 @@ def run(chk):
             if all(any(alt in ctx for alt in n.split("|")) for n in needles):
                 hit = r
                 break
+        if hit is None:
+            # the refusal may have been moved into helpers of the same module (`raise self._error(..)`, a check function): the
+            # exception is built / raised in a reachable helper and the tests it depends on are mentioned along the way
+            from ..source import reachable_functions as _rf1
+
+            reach = [g_ for g_ in _rf1(mod, f) if g_ is not f]
+            text_all = norm(f) + " " + " ".join(norm(g_) for g_ in reach)
+            builds = any(
+                isinstance(n_, ast.Call) and (dotted(n_.func) or "").split(".")[-1] == exc and isinstance(parent(n_), (ast.Raise, ast.Return))
+                for g_ in reach + [f] for n_ in ast.walk(g_)
+            )
+            if reach and builds and all(any(alt in text_all for alt in n.split("|")) for n in needles):
+                hit = f
         chk.ob("R1", mod, hit or f, f"{iid}: {what} -> {exc}", hit is not None,
                f"rule instance `{iid}`: `{fq}` has no `raise {exc}` controlled by a test mentioning {needles}: {what} is no longer "
                "rejected by the verb call with the documented exception")  # fmt: skip
@@ -274,7 +293,10 @@ def run(chk):
         has_expr_args = any(a.arg in ("kwargs", "predicates", "by", "more_by", "cols", "name_map") for a in f.args.args + ([f.args.vararg] if f.args.vararg else []) + ([f.args.kwarg] if f.args.kwarg else []))
         if not has_expr_args:
             continue
-        uses = any(dotted(c.func) == "preprocess_arg" for c in calls_in(f))
+        # called directly, or handed on (functools.partial(preprocess_arg, ..), map(preprocess_arg, ..), a helper that calls it)
+        from ..source import reachable_functions as _rf14
+
+        uses = any(isinstance(n_, ast.Name) and n_.id == "preprocess_arg" for g_ in _rf14(vb, f) for n_ in ast.walk(g_))
         chk.ob("R3", vb, f, f"{q} resolves its column arguments with preprocess_arg", uses, f"`{q}` builds its node without resolving / checking its arguments")
 
     # ---- R4 discarded exceptions
